@@ -10,9 +10,9 @@ import (
 // ("f.Assignments[1].Contents[0].LHS"): Rep element patterns ("…[]") are instantiated while rendering.
 type Val interface {
 	Bool(path string) bool
-	Str(path string) string   // text of a string field (empty string = empty)
-	Len(path string) int      // length of a slice field
-	Nil(path string) bool     // pointer field is nil
+	Str(path string) string     // text of a string field (empty string = empty)
+	Len(path string) int        // length of a slice field
+	Nil(path string) bool       // pointer field is nil
 	DynType(path string) string // dynamic type name of an interface value
 }
 
